@@ -12,6 +12,7 @@ pub const HANG_SECS: u64 = 10;
 
 thread_local! {
     static LAST_PANIC: RefCell<Option<PanicInfo>> = const { RefCell::new(None) };
+    static GUARD_DEPTH: std::cell::Cell<u32> = const { std::cell::Cell::new(0) };
 }
 
 #[derive(Clone, Debug, PartialEq, Eq)]
@@ -44,6 +45,10 @@ pub fn install_panic_hook() {
             .location()
             .map(|l| format!("{}:{}:{}", l.file(), l.line(), l.column()))
             .unwrap_or_default();
+        if GUARD_DEPTH.with(|d| d.get()) == 0 {
+            // not inside `guarded`: a defect of the harness itself — say so
+            eprintln!("C12 harness panic: {} @ {}", message, location);
+        }
         LAST_PANIC.with(|p| *p.borrow_mut() = Some(PanicInfo { message, location }));
     }));
 }
@@ -51,7 +56,10 @@ pub fn install_panic_hook() {
 /// run `f`; `Err` carries the panic's message and location
 pub fn guarded<T>(f: impl FnOnce() -> T) -> Result<T, PanicInfo> {
     LAST_PANIC.with(|p| *p.borrow_mut() = None);
-    match catch_unwind(AssertUnwindSafe(f)) {
+    GUARD_DEPTH.with(|d| d.set(d.get() + 1));
+    let outcome = catch_unwind(AssertUnwindSafe(f));
+    GUARD_DEPTH.with(|d| d.set(d.get() - 1));
+    match outcome {
         Ok(v) => Ok(v),
         Err(_) => Err(LAST_PANIC.with(|p| p.borrow_mut().take()).unwrap_or(PanicInfo {
             message: "<panic without hook record>".to_owned(),
